@@ -478,45 +478,79 @@ func ruleR07j(c *Ctx, rule string, rels []string, floorArms int, only ...string)
 					if bound == nil {
 						continue // the arm cannot name the fields: it treats the node as opaque
 					}
-					body := &ast.BlockStmt{List: cc.Body}
 					// node handed on whole, or Children() used, or the arm raises at once
-					whole, usesFields := false, map[*types.Var]bool{}
-					ast.Inspect(body, func(y ast.Node) bool {
-						switch e := y.(type) {
-						case *ast.CallExpr:
-							if se, ok := e.Fun.(*ast.SelectorExpr); ok {
-								if id, ok := ast.Unparen(se.X).(*ast.Ident); ok && info.Uses[id] == bound {
-									whole = true // a method of the node (Children(), String(), ...)
+					analyseArm := func(body ast.Node, bound types.Object) (bool, map[*types.Var]bool) {
+						whole, usesFields := false, map[*types.Var]bool{}
+						ast.Inspect(body, func(y ast.Node) bool {
+							switch e := y.(type) {
+							case *ast.CallExpr:
+								if se, ok := e.Fun.(*ast.SelectorExpr); ok {
+									if id, ok := ast.Unparen(se.X).(*ast.Ident); ok && info.Uses[id] == bound {
+										whole = true // a method of the node (Children(), String(), ...)
+									}
 								}
-							}
-							for _, a := range e.Args {
-								if id, ok := ast.Unparen(a).(*ast.Ident); ok && info.Uses[id] == bound {
-									if id2, isBuiltin := e.Fun.(*ast.Ident); !isBuiltin || (id2.Name != "panic" && id2.Name != "print") {
+								for _, a := range e.Args {
+									if id, ok := ast.Unparen(a).(*ast.Ident); ok && info.Uses[id] == bound {
+										if id2, isBuiltin := e.Fun.(*ast.Ident); !isBuiltin || (id2.Name != "panic" && id2.Name != "print") {
+											whole = true
+										}
+									}
+								}
+							case *ast.SelectorExpr:
+								if id, ok := ast.Unparen(e.X).(*ast.Ident); ok && info.Uses[id] == bound {
+									if fv, ok := info.Uses[e.Sel].(*types.Var); ok && fv.IsField() {
+										usesFields[fv] = true
+									}
+								}
+							case *ast.AssignStmt:
+								for _, r := range e.Rhs {
+									if id, ok := ast.Unparen(r).(*ast.Ident); ok && info.Uses[id] == bound {
+										whole = true
+									}
+								}
+							case *ast.ReturnStmt:
+								for _, r := range e.Results {
+									if id, ok := ast.Unparen(r).(*ast.Ident); ok && info.Uses[id] == bound {
 										whole = true
 									}
 								}
 							}
-						case *ast.SelectorExpr:
-							if id, ok := ast.Unparen(e.X).(*ast.Ident); ok && info.Uses[id] == bound {
-								if fv, ok := info.Uses[e.Sel].(*types.Var); ok && fv.IsField() {
-									usesFields[fv] = true
-								}
+							return true
+						})
+						return whole, usesFields
+					}
+					whole, usesFields := analyseArm(&ast.BlockStmt{List: cc.Body}, bound)
+					if whole {
+						// handed whole to a method of its own (tc.checkFor(node)): that method is the arm
+						for _, st := range cc.Body {
+							es, ok := st.(*ast.ExprStmt)
+							if !ok {
+								continue
 							}
-						case *ast.AssignStmt:
-							for _, r := range e.Rhs {
-								if id, ok := ast.Unparen(r).(*ast.Ident); ok && info.Uses[id] == bound {
-									whole = true
-								}
+							call, ok := es.X.(*ast.CallExpr)
+							if !ok {
+								continue
 							}
-						case *ast.ReturnStmt:
-							for _, r := range e.Results {
-								if id, ok := ast.Unparen(r).(*ast.Ident); ok && info.Uses[id] == bound {
-									whole = true
+							for _, hd := range c.allFuncDecls(rel) {
+								if info.Defs[hd.Name] != types.Object(calleeFunc(call, info)) || calleeFunc(call, info) == self || hd.Name.IsExported() {
+									continue
+								}
+								k := 0
+								for _, fl := range hd.Type.Params.List {
+									for _, nm := range fl.Names {
+										if k < len(call.Args) {
+											if id, ok := ast.Unparen(call.Args[k]).(*ast.Ident); ok && info.Uses[id] == bound {
+												if ptv, ok := info.Types[fl.Type]; ok && types.Identical(ptv.Type, tv.Type) {
+													whole, usesFields = analyseArm(hd.Body, info.Defs[nm])
+												}
+											}
+										}
+										k++
+									}
 								}
 							}
 						}
-						return true
-					})
+					}
 					if whole || len(usesFields) == 0 {
 						continue
 					}
